@@ -309,6 +309,11 @@ def genericFromText (s : TState) : RM (Bytes × TState) := do
     | none => .error .syntaxError
     | some data => if data.length ≠ len then .error .syntaxError else pure (data, s)
 
+/-- one `<character-string>` of a TXT record: escapes applied to bytes, at most 255 octets -/
+def txtString (t : Token) : RM Bytes := do
+  let u ← liftT t.unescapeToBytes
+  if u.value.length > 255 then (.error .syntaxError : RM Bytes) else pure u.value
+
 /-- the type-specific `cls.from_text` -/
 def rdataFromTextTyped (ty : Nat) (s : TState) (origin : Option Name) (rel : Bool) (relTo : Option Name) :
     RM (Rdata × TState) :=
@@ -326,9 +331,7 @@ def rdataFromTextTyped (ty : Nat) (s : TState) (origin : Option Name) (rel : Boo
     pure (.mx p n, s)
   else if ty = tTXT then do
     let (ts, s) ← liftT s.getRemaining
-    let strs ← ts.mapM fun t => do
-      let u ← liftT t.unescapeToBytes
-      if u.value.length > 255 then (.error .syntaxError : RM Bytes) else pure u.value
+    let strs ← ts.mapM txtString
     if strs = [] then .error .syntaxError else pure (.txt strs, s)
   else if ty = tSOA then do
     let (m, s) ← liftT (s.getName origin rel relTo)
@@ -340,6 +343,11 @@ def rdataFromTextTyped (ty : Nat) (s : TState) (origin : Option Name) (rel : Boo
     let (mi, s) ← liftT s.getTTL
     pure (.soa m r se rf rt ex mi, s)
   else .error .unmodelled
+
+/-- `(relativize_to or origin) if relativize else None`: the origin against which the generic form of a known type
+is decoded and re-encoded (repaired reader) -/
+def wireOrigin (origin : Option Name) (rel : Bool) (relTo : Option Name) : Option Name :=
+  if rel then (match relTo with | some r => if r = [] then origin else some r | none => origin) else none
 
 /-- `dns.rdata.from_text(IN, ty, tok, origin, relativize, relativize_to)`; returns the rdata and its comment -/
 def rdataFromText (ty : Nat) (s : TState) (origin : Option Name) (rel : Bool) (relTo : Option Name)
@@ -358,8 +366,7 @@ def rdataFromText (ty : Nat) (s : TState) (origin : Option Name) (rel : Bool) (r
           let (d, s2) ← genericFromText s1
           -- as shipped: `from_wire(..., origin)` then `rdata.to_wire()` (D08, read side).  Variant `gfix`
           -- (proposed repair): both with `(relativize_to or origin) if relativize else None`.
-          let relOrigin : Option Name :=
-            if rel then (match relTo with | some r => if r = [] then origin else some r | none => origin) else none
+          let relOrigin : Option Name := wireOrigin origin rel relTo
           match rdataFromWire ty d (if gfix then relOrigin else origin) with
           | none => .error .syntaxError
           | some rd =>
